@@ -104,7 +104,14 @@ class ExecMixin:
                 self.stats["blocks"] += 1
                 if self.stats["blocks"] > self.opts.get("max_blocks", 30000000):
                     raise Abort("block budget exceeded")
-                succs = self.exec_block(frame, st, bb)
+                try:
+                    succs = self.exec_block(frame, st, bb)
+                except Abort as e:
+                    if "budget" in str(e) or "call depth" in str(e):
+                        raise
+                    # a construct outside the modelled fragment: this path is left unexplored (recorded, never an alarm)
+                    self.aborted[str(e)[:160]] += 1
+                    break
                 nxt = None
                 for kind, s2, x in succs:
                     if kind == "ret":
@@ -463,6 +470,10 @@ class ExecMixin:
         final recorded pass.  Returns {'ret': [...], 'exit': [(st, bb)]}"""
         self.stats["loops"] += 1
         lid = (frame.key, head)
+        if self.opts.get("unroll"):
+            r = self.try_unroll(frame, st0, head, loopset)
+            if r is not None:
+                return r
         havoc = {}          # (cell, keypath) -> (sym or None, kind)
         prefixes = {}       # (cell, keypath of content) -> common prefix of the segment description
         cands = None
@@ -550,6 +561,45 @@ class ExecMixin:
         if hook:
             hook(frame, head, H, res, havoc, lid)
         return {"ret": rets + res["ret"], "exit": res["exit"]}
+
+    def try_unroll(self, frame, st0, head, loopset, max_iter=24, max_width=3):
+        """bounded concrete unrolling for loops with a small, statically decided trip count (e.g. a loop over a
+        fixed-size array); returns None when the loop does not unroll within the bounds (Houdini is used then)"""
+        states = [st0]
+        exits, rets = [], []
+        self.mute += 1          # obligations of the attempt are recorded only if it succeeds (re-run below)
+        try:
+            for it in range(max_iter + 1):
+                nxt = []
+                for s in states:
+                    succs = self.exec_block(frame, s.fork(), head)
+                    items = [(x, y) for k, x, y in succs if k == "goto"]
+                    res = self.explore(frame, items, head, loopset)
+                    nxt.extend(res["back"])
+                    if len(nxt) > max_width:
+                        return None
+                if not nxt:
+                    break
+                states = nxt
+            else:
+                return None
+        finally:
+            self.mute -= 1
+        # it unrolls: run it again for real
+        states = [st0]
+        while states:
+            nxt = []
+            for s in states:
+                succs = self.exec_block(frame, s, head)
+                items = [(x, y) for k, x, y in succs if k == "goto"]
+                rets.extend((x, y) for k, x, y in succs if k == "ret")
+                res = self.explore(frame, items, head, loopset)
+                nxt.extend(res["back"])
+                exits.extend(res["exit"])
+                rets.extend(res["ret"])
+            states = nxt
+        self.stats["loops_unrolled"] += 1
+        return {"ret": rets, "exit": exits}
 
     def leaf_name(self, cell, kp):
         return "%s%s" % (cell, "".join("." + "/".join(str(x) for x in k) for k in kp))
@@ -782,6 +832,11 @@ class ExecMixin:
                     cands.append(("le", (cell, kp), (c2, kp2)))
                 if entails(st0.cons, c_le(v2.lin, old.lin), self.ranges):
                     cands.append(("ge", (cell, kp), (c2, kp2)))
+        # conserved linear combinations of two loop-carried integers (e.g. octets remaining + 2 * items read)
+        for i in range(len(hint)):
+            for j in range(i + 1, len(hint)):
+                for k in (1, -1, 2, -2, 4, -4, 8, -8, 16, -16):
+                    cands.append(("lin2", hint[i], hint[j], k))
         return cands
 
     def leaf_lin(self, st, cell, kp):
@@ -806,9 +861,17 @@ class ExecMixin:
         b = self.leaf_lin(st, *c[2])
         if b is None:
             return None
+        if kind == "lin2":
+            ea = self._entry.get((lid, c[1]))
+            eb = self._entry.get((lid, c[2]))
+            if ea is None or eb is None:
+                return None
+            return c_eq(a + b.scale(c[3]), ea + eb.scale(c[3]))
         return c_le(a, b) if kind == "le" else c_le(b, a)
 
     def cand_str(self, c):
+        if c[0] == "lin2":
+            return "%s %+d*%s conserved" % (self.leaf_name(*c[1]), c[3], self.leaf_name(*c[2]))
         if c[0] in ("ge0", "le0"):
             return "%s %s entry" % (self.leaf_name(*c[1]), ">=" if c[0] == "ge0" else "<=")
         return "%s %s %s" % (self.leaf_name(*c[1]), "<=" if c[0] == "le" else ">=", self.leaf_name(*c[2]))
